@@ -42,7 +42,8 @@ RULE = ('cases from one PRNG: (a) 66% amplifier crossings: an amplifier of a shi
         'shape of min/max-NF amplifiers at gmax, gmin, below gmin and sorted random gains; (c) 10% estimate_nf_model '
         'incl. rejected inputs (both branches, recomputed delta_p); (d) 6% library entries with missing/extra keys, '
         'each loaded entry then used in a crossing. Non-trivial: (a) at least one channel kept and (>= 2 channels or '
-        'saturated), (a\') >= 2 channels kept, (b)-(d) always; distinct = distinct canonical JSON')
+        'saturated), (a\') >= 2 channels kept, (b)-(d) always; thorough tier adds the exhaustive corners of the stock library (19 amplifiers x 4 gains x '
+        '3 loads x 3 channel counts x 2 tilts); distinct = distinct canonical JSON')
 MODEL_SCOPE = ('modelled: Edfa.__call__/propagate/interpol_params (band filter, in_voa, total input power, clamp on the '
                'effective_gain attribute incl. its persistence across calls, slot_width rule), _calc_nf/_nf for all '
                'type_defs incl. dual_stage, noise_profile, _gain_profile (flat and tilted/ripple branches, polyfit as '
@@ -717,6 +718,27 @@ def run_fromjson(case, drv):
     res.nontrivial = True
     res.stats.update({'fromjson_cases': 1, f'fromjson_{impl[0]}_{impl[1]}': 1})
     return res
+
+
+# ---------------------------------------------------------------------------------------------------------------------
+# exhaustive small scope (thorough tier): every amplifier of the stock library at the corners of its range
+# ---------------------------------------------------------------------------------------------------------------------
+
+def exhaustive():
+    eq = nets.eqpt('eqpt_config.json')
+    for name, a in eq['Edfa'].items():
+        if a.type_def == 'multi_band':
+            continue
+        f0 = int(a.f_min) + 25_000_000_000
+        for gain in (a.gain_min - 1, a.gain_min, a.gain_flatmax, a.gain_flatmax + 2.5):
+            for nch in (1, 2, 5):
+                for ptot in (-30.0, a.p_max - gain, a.p_max - gain + 3):
+                    chans = [[f0 + i * 50_000_000_000, 50_000_000_000, 32e9, round(ptot - 10 * math.log10(nch), 6)]
+                             for i in range(nch)]
+                    for tilt in (0, -1):
+                        yield {'kind': 'call', 'lib': {'shipped': 'eqpt_config.json'}, 'amp': name,
+                               'oper': {'gain_target': gain, 'tilt_target': tilt, 'out_voa': 0},
+                               'calls': [{'chans': chans, 'noise': 0}]}
 
 
 # ---------------------------------------------------------------------------------------------------------------------
